@@ -3,6 +3,7 @@
 //! answers. Oracle failures (the property's own predicate evaluated on the implementation alone)
 //! are reported separately from model disagreements.
 
+mod alloc;
 mod append;
 mod catalogue;
 mod derived;
@@ -20,6 +21,9 @@ use std::collections::BTreeMap;
 use std::fs::File;
 use std::io::{BufWriter, Write};
 
+#[global_allocator]
+static GLOBAL: alloc::Counting = alloc::Counting;
+
 pub struct Ctx {
 	pub seed: u64,
 	pub tier_thorough: bool,
@@ -31,6 +35,8 @@ pub struct Ctx {
 	pub lines: u64,
 	/// Encoded values of mixed types, for heterogeneous concatenations (C14).
 	pub pool: Vec<PoolEntry>,
+	/// where the request about to be executed is recorded (C09: attribution of aborts)
+	pub current_path: String,
 }
 
 pub struct PoolEntry {
@@ -110,6 +116,7 @@ fn main() {
 		counts: BTreeMap::new(),
 		lines: 0,
 		pool: vec![],
+		current_path: format!("{}/current.txt", out),
 	};
 	// panics inside the crate are outcomes, not noise
 	std::panic::set_hook(Box::new(|_| {}));
